@@ -348,7 +348,7 @@ WIDE_U8 = [9, 12, 15, 17, 32, 33, 100, 255, 256, 257, 4096]
 def wide_layouts(N, r, k=6):
     """edge layouts plus k random ones: (start, size)"""
     edge = {(0, 0), (0, N), (N - 1, N), (N - 1, 1), (1, N - 1), (N // 2, N // 2), (N // 2, N - N // 2 + 1),
-            (N - 3, 5), (3, N - 3), (N - 1, 0), (N // 2 + 1, N), (1, N - 2)}
+            (N - 3, 5), (3, N - 3), (N - 1, 0), (N // 2 + 1, N), (1, N - 2), (N // 2, N)}
     out = [(st % N, min(max(sz, 0), N)) for (st, sz) in edge]
     for _ in range(k):
         out.append((r.below(N), r.below(N + 1)))
